@@ -1,5 +1,6 @@
 mod alloc;
 mod auth;
+mod autoalloc;
 mod journal;
 mod oracle;
 mod panics;
@@ -241,6 +242,10 @@ fn main() {
         }
         "journal" => {
             let code = journal::main(&args[2..]);
+            std::process::exit(code);
+        }
+        "autoalloc" => {
+            let code = autoalloc::main(&args[2..]);
             std::process::exit(code);
         }
         "auth" => {
